@@ -278,10 +278,10 @@ func c09genClient(r *rand.Rand, n, keys int, unit bool, limit int64, nextID *int
 }
 
 type c09event struct {
-	client     int
-	in         c09in
-	out        c09out
-	call, ret  int64
+	client    int
+	in        c09in
+	out       c09out
+	call, ret int64
 }
 
 func conflicting(a, b c09in) bool {
